@@ -13,6 +13,8 @@ CHECKS = {
          'bounded exhaustive enumeration against a reference derivation enumerator + digest comparison across hash seeds'),
  'C20': ('exploration', '4 C20', 'Every grammar of the plain-BNF families (incl. cyclic) x lexer x input is parsed with ambiguity=forest; all forest visitor/transformer classes must terminate, report cycles exactly when an independent graph walk finds one, and the expanded tree set must equal the set of unshaped reference derivations.',
          'bounded exhaustive enumeration of forests against a reference derivation enumerator and an independent cycle finder'),
+ 'C03': ('exploration', '4 C03', 'Every grammar of the SHAPE families (EBNF operators x helper spellings a/_a/?a/!a/template x aliases x kept/filtered/anonymous tokens, incl. a literal that coincides with a named terminal) x keep_all_tokens x maybe_placeholders x 6 engine/lexer pairs x every input up to the bound: the returned tree must be the documented shaping of a reference derivation; unique derivation = all engines agree.',
+         'bounded exhaustive enumeration of (grammar, options, engine, input) against reference derivations + a shaping function written from the documentation'),
 }
 NOT_YET = {}
 def main():
